@@ -22,7 +22,7 @@ func init() {
 		ID:    "C16",
 		Level: "exploration",
 		Rule: "C10's random trees (sibling-confusable names a, ab, a-b, 'a b', .c, ...; files, dirs, symlinks; depth<=3) with directory metadata made observable (owners {0,1234,65534}, setgid/sticky, user.* xattrs) x include/exclude lists from C10's grammar (literals, *, ?, **, classes, escapes, trailing /*, /**, /, negations, duplicates; 0-3 includes, 0-4 excludes, either list dropped in 1/6 of the cases) x source {whole tree, one sub-directory with CopyDirContents (patterns relative to it)} x destination {empty, populated: a random part of the source's own directories and files (same types, different bytes/targets/metadata/xattrs) plus foreign entries}; " +
-			"fs.Copy is run for real; the set of paths it wrote (empty destination: the whole destination listing; populated: new paths plus pre-existing non-directories whose bytes/target changed; pre-existing directories are projected out on both sides) is compared with (1) the naive reference refs.SelectNaive + ancestors and (2) the listing fsutil.Walk reports for the same tree and patterns; every directory the copy created is compared with the source directory's mode, owner and xattrs (timestamps not demanded); written non-directories must carry the source's type, bytes or target; in a populated destination nothing may disappear and every entry that is not selected (and every directory that is not an ancestor of a selection) must be bit-for-bit and mtime-for-mtime what it was. Invalid pattern lists must be refused. A mismatch that equals the incremental-unpruned reference (moby/patternmatcher parent-memo, K1) is reported under K1's signature, anything else under another one. " +
+			"fs.Copy is run for real; the set of paths it wrote (empty destination: the whole destination listing; populated: new paths plus pre-existing non-directories whose bytes/target changed; pre-existing directories are projected out on both sides) is compared with (1) the naive reference refs.SelectNaive + ancestors and (2) the listing fsutil.Walk reports for the same tree and patterns; every directory the copy created is compared with the source directory's mode, owner and xattrs (timestamps not demanded); written non-directories must carry the source's type, bytes or target; in a populated destination nothing may disappear and every entry that is not selected (and every directory that is not an ancestor of a selection) must be bit-for-bit and mtime-for-mtime what it was. Invalid pattern lists must be refused. One case in eight runs the copy and the walk as uid 1234 over a tree it owns except for up to two directories it may not list (root:root 0700, often named in the exclude list): the reference sees those directories without content; when the filtered walk succeeds the copy must succeed and write the same set, when the walk fails (a selected directory cannot be listed) the copy is not judged. A mismatch that equals the incremental-unpruned reference (moby/patternmatcher parent-memo, K1) is reported under K1's signature, anything else under another one. " +
 			"non-trivial = the patterns select a proper non-empty subset of the listing; distinct by (tree, patterns, source, destination kind) fingerprint",
 		Assumptions: []string{
 			"pattern syntax and single-pattern matching are those of moby/patternmatcher (same library on both sides, fresh matcher per decision in the reference)",
@@ -212,7 +212,25 @@ func c16Run(c *core.Ctx) *core.Result {
 	o.Owners = []uint32{0, 1234, 65534}
 	o.Special = true
 	o.Xattrs = true
+	// one case in eight runs the copy and the walk as an ordinary user over a
+	// tree that holds directories this user may not list (root:root 0700)
+	unpriv := core.NewRand(core.Mix(c.Seed, "C16-unpriv", c.Index)).P(1, 8)
+	if unpriv {
+		o.Owners = []uint32{1234}
+		o.Special = false
+		o.Xattrs = false
+	}
 	t := tree.Gen(R, o)
+	if unpriv {
+		for i := range t.Entries {
+			switch e := &t.Entries[i]; e.Type {
+			case tree.Dir:
+				e.Perm |= 0700
+			case tree.File:
+				e.Perm |= 0400
+			}
+		}
+	}
 	srcDir := filepath.Join(c.Dir, "src")
 	dstDir := filepath.Join(c.Dir, "dst")
 	os.Mkdir(srcDir, 0755)
@@ -240,9 +258,59 @@ func c16Run(c *core.Ctx) *core.Result {
 		r.Inconclusive = "snapshot src: " + err.Error()
 		return r
 	}
+	var locked []string
+	if unpriv {
+		os.Chmod(c.Dir, 0755)
+		os.Lchown(dstDir, 1234, 1234)
+		var dirs []string
+		for _, e := range view.Entries {
+			if e.Type == tree.Dir {
+				dirs = append(dirs, e.Path)
+			}
+		}
+		core.Shuffle(R, dirs)
+		for _, d := range dirs {
+			if len(locked) >= 2 {
+				break
+			}
+			under := false
+			for _, l := range locked {
+				under = under || strings.HasPrefix(d, l+"/") || strings.HasPrefix(l, d+"/")
+			}
+			if under {
+				continue
+			}
+			full := filepath.Join(walkRoot, filepath.FromSlash(d))
+			if os.Lchown(full, 0, 0) != nil || os.Chmod(full, 0700) != nil {
+				continue
+			}
+			locked = append(locked, d)
+		}
+		// what this user can see: the locked directories without content
+		if view, err = tree.Snapshot(walkRoot, tree.SnapOpt{}); err != nil {
+			r.Inconclusive = "snapshot src: " + err.Error()
+			return r
+		}
+		for _, l := range locked {
+			kept := view.Entries[:0]
+			for _, e := range view.Entries {
+				if !strings.HasPrefix(e.Path, l+"/") {
+					kept = append(kept, e)
+				}
+			}
+			view.Entries = kept
+		}
+		r.Count("unprivileged_cases", 1)
+		r.Count("unlistable_directories", int64(len(locked)))
+	}
 	items := refs.Items(view)
 	inc := refs.GenPatterns(R, 3, true, view.Paths()...)
 	exc := refs.GenPatterns(R, 4, true, view.Paths()...)
+	if len(locked) > 0 && R.P(1, 2) {
+		if l := core.Pick(R, locked); !strings.ContainsAny(l, "*?[]\\!") {
+			exc = append(exc, l)
+		}
+	}
 	if R.P(1, 6) {
 		inc = nil
 	}
@@ -258,7 +326,7 @@ func c16Run(c *core.Ctx) *core.Result {
 			exc = append(exc, bad)
 		}
 	}
-	populated := R.P(2, 5)
+	populated := R.P(2, 5) && !unpriv
 	prior := &tree.Tree{}
 	var obstacles []string
 	if populated {
@@ -312,7 +380,29 @@ func c16Run(c *core.Ctx) *core.Result {
 	r.AddSet("configs", fmt.Sprintf("dest=%s sub=%v inc=%v exc=%v", kind, sub != "", len(inc) > 0, len(exc) > 0))
 
 	naive, nerr := refs.SelectNaive(items, inc, exc)
-	cerr := fs.Copy(context.Background(), srcDir, srcArg, dstDir, "/", opts...)
+	var cerr error
+	if unpriv {
+		// the filtered walk decides whether this user can process the tree
+		// at all (a selected directory that cannot be listed fails both)
+		var werr error
+		if err := asUser(1234, 1234, func() {
+			werr = fsutil.Walk(context.Background(), walkRoot, &fsutil.FilterOpt{IncludePatterns: inc, ExcludePatterns: exc}, func(p string, fi os.FileInfo, err error) error { return err })
+			cerr = fs.Copy(context.Background(), srcDir, srcArg, dstDir, "/", opts...)
+		}); err != nil {
+			r.Inconclusive = "cannot switch uid: " + err.Error()
+			return r
+		}
+		if werr != nil && nerr == nil {
+			r.Count("unprivileged_walk_fails_copy_not_judged", 1)
+			r.FP = fmt.Sprintf("unpriv-walk-failed|%s|%q|%q", view.Fingerprint(), inc, exc)
+			return r
+		}
+		if nerr == nil {
+			r.Count("unprivileged_copies_judged", 1)
+		}
+	} else {
+		cerr = fs.Copy(context.Background(), srcDir, srcArg, dstDir, "/", opts...)
+	}
 	r.Count("copies", 1)
 	if nerr != nil {
 		r.Count("invalid_pattern_lists", 1)
@@ -413,13 +503,21 @@ func c16Run(c *core.Ctx) *core.Result {
 
 	// (2) filtered walk of the same tree with the same patterns
 	var walked []string
-	werr := fsutil.Walk(context.Background(), walkRoot, &fsutil.FilterOpt{IncludePatterns: inc, ExcludePatterns: exc}, func(p string, fi os.FileInfo, err error) error {
-		if err != nil {
-			return err
-		}
-		walked = append(walked, filepath.ToSlash(p))
-		return nil
-	})
+	var werr error
+	doWalk := func() {
+		werr = fsutil.Walk(context.Background(), walkRoot, &fsutil.FilterOpt{IncludePatterns: inc, ExcludePatterns: exc}, func(p string, fi os.FileInfo, err error) error {
+			if err != nil {
+				return err
+			}
+			walked = append(walked, filepath.ToSlash(p))
+			return nil
+		})
+	}
+	if unpriv {
+		asUser(1234, 1234, doWalk)
+	} else {
+		doWalk()
+	}
 	if werr != nil {
 		r.ViolateD("walk-error", sample, "filtered walk of the source failed: %v", werr)
 	} else {
